@@ -238,6 +238,12 @@ func main() {
 		if err == nil {
 			res.Exhaustive = false
 			err = c19.RunE2E(d, res)
+			if err == nil {
+				err = c19.RunFormBody(d, res)
+			}
+			if err == nil {
+				err = c19.RunNoCtx(d, res)
+			}
 			res.Exhaustive = err == nil
 		}
 	case "C20":
